@@ -70,6 +70,48 @@ extern "C" void h_request(void)
 	vp_reach(2);
 }
 
+// query parameters: p0 = 0: value is one raw character ('+' means space), 1: value is "%XY" with symbolic hex digits, 2: the same in the key
+extern "C" void h_query(void)
+{
+	int mode = vp_param(0);
+	char t[120]; int n = 0;
+	n = put(t, n, "GET /p?a=");
+	char exp[2] = { 0, 0 };
+	char enc[4]; int el = 0;
+	if (mode == 0) {
+		char c = (char)nondet_u8();
+		vp_assume((c >= 'a' && c <= 'z') || (c >= 'A' && c <= 'Z') || (c >= '0' && c <= '9') || c == '+' || c == '-' || c == '.' || c == '_' || c == '~' || c == '*' || c == '!');
+		enc[el++] = c; exp[0] = c == '+' ? ' ' : c;
+	} else {
+		char h = (char)nondet_u8(), l = (char)nondet_u8();
+		vp_assume((h >= '0' && h <= '9') || (h >= 'a' && h <= 'f') || (h >= 'A' && h <= 'F'));
+		vp_assume((l >= '0' && l <= '9') || (l >= 'a' && l <= 'f') || (l >= 'A' && l <= 'F'));
+		int v = (h <= '9' ? h - '0' : (h | 32) - 'a' + 10) * 16 + (l <= '9' ? l - '0' : (l | 32) - 'a' + 10);
+		vp_assume(v != 0);
+		enc[el++] = '%'; enc[el++] = h; enc[el++] = l; exp[0] = (char)v;
+	}
+	if (mode == 2) { n = put(t, n, "1&"); memcpy(t + n, enc, el); n += el; n = put(t, n, "x=2"); }
+	else { memcpy(t + n, enc, el); n += el; n = put(t, n, "&b=2"); }
+	n = put(t, n, " HTTP/1.1\r\nHost: h\r\n\r\n");
+	int fd = vp_sock_new();
+	vp_sock_feed(fd, t, n); vp_sock_peer_close(fd);
+	{
+		Socket s(fd);
+		HttpRequest req(s);
+		vp_assert(req.path() == "/p", "path without the query");
+		if (mode == 2) {
+			char key[3] = { exp[0], 'x', 0 };
+			vp_assert(req.query("a") == "1", "first parameter");
+			vp_assert(req.query(key) == "2", "a percent-encoded key character is decoded to exactly that byte ('%2B' is a plus, not a space)");
+		} else {
+			vp_assert(req.query("a") == exp, "the query value handed over is the one sent: '+' is a space, %XY is that byte ('%2B' stays a plus)");
+			vp_assert(req.query("b") == "2", "second parameter");
+		}
+		vp_note((byte)exp[0]);
+	}
+	vp_reach(6);
+}
+
 // p0 = length: Url(s) and Url::decode(s) are total and in bounds for every NUL-free s
 extern "C" void h_url(void)
 {
